@@ -111,6 +111,11 @@ func runReinvest(ctx *action.Context, tx action.RawTx) (bool, action.Response) {
 		return helpers.LogAndReturnFalse(ctx.Logger, action.ErrUnserializable, invest.Tags(), err)
 	}
 
+	// the amount must be a non-negative amount of OLT
+	if !invest.Amount.IsValid(ctx.Currencies) || invest.Amount.Currency != "OLT" {
+		return helpers.LogAndReturnFalse(ctx.Logger, action.ErrInvalidAmount, invest.Tags(), errors.New("invalid reinvest amount"))
+	}
+
 	// cut rewards
 	coinAmt := invest.Amount.ToCoin(ctx.Currencies)
 	err = ctx.NetwkDelegators.Rewards.MinusRewardsBalance(invest.Delegator, coinAmt.Amount)
